@@ -141,3 +141,6 @@ func (s *Stub) handle(w http.ResponseWriter, r *http.Request) {
 	}
 	writeStatus(w, 404, metav1.StatusReasonNotFound, "the server could not find the requested resource")
 }
+
+// URL is the base URL of the stub.
+func (s *Stub) URL() string { return s.srv.URL }
